@@ -25,6 +25,7 @@ type World struct {
 	Objs       []*Object
 	WG         map[string]int64 // WaitGroup counters after set-up
 	Timers     []*Chan
+	CtxCanceled Value // the one error value ctx.Err() returns once the context is cancelled
 	symLeaves  map[string][2]*term.T
 	symLayouts map[string]*symLayout
 	// statistics
@@ -172,6 +173,7 @@ type Machine struct {
 	constCache   map[*ssa.Const]Value
 	arenaLoadFn  func(*PtrV) Value
 	chanLenFn    func(*Chan) Value
+	outcomeUpd   map[*term.T]*term.T // channel effects of the outcome this path started with (BMC)
 	touched      []*Chan
 	arenaAllocFn func(types.Type, *Frame) Value
 	arenaStoreFn func(*PtrV, Value)
